@@ -59,6 +59,25 @@ func randPass(r *rng.R) string {
 	return string(b)
 }
 
+// foreignPass: 6..40 bytes of printable ASCII with at least one character OUTSIDE CreateWallet's alphabet.
+func foreignPass(r *rng.R) string {
+	const outside = " !\"'()*+,-./:;<=>?[]_`{|}~"
+	n := 6 + r.Intn(35)
+	b := make([]byte, n)
+	for i := range b {
+		if r.Chance(25) {
+			b[i] = r.Pick(outside)
+		} else {
+			b[i] = r.Pick(passChars)
+		}
+	}
+	b[r.Intn(n)] = r.Pick(outside)
+	if b[n-1] == ' ' {
+		b[n-1] = '!'
+	}
+	return string(b)
+}
+
 func redeemOf(pub33 []byte) []byte {
 	out := append([]byte{0x51, 0x21}, pub33...)
 	return append(out, 0x51, 0xae)
@@ -301,10 +320,40 @@ func runOne(seed uint64, n int, out *bufio.Writer) error {
 	if err != nil {
 		return err
 	}
-	id, mnemonic, _, err := w1.WM.CreateWallet(pass, remark, bits)
-	if err != nil {
-		w1.Stop()
-		return fmt.Errorf("CreateWallet: %v", err)
+	var id, mnemonic string
+	if n%4 == 3 {
+		// born by IMPORT with a passphrase outside CreateWallet's alphabet: the import paths (and the API's length
+		// check) admit any passphrase of 6..40 bytes, and a version-0 keystore makes the passphrase part of the seed,
+		// so such a wallet must keep working with exactly that passphrase
+		pass = foreignPass(r)
+		ent, err := keystore.NewEntropy(bits)
+		if err != nil {
+			w1.Stop()
+			return err
+		}
+		if mnemonic, err = keystore.NewMnemonic(ent); err != nil {
+			w1.Stop()
+			return err
+		}
+		sum, err := w1.WM.ImportWalletWithMnemonic(&keystore.WalletParams{Version: keystore.KeystoreVersionLatest, Mnemonic: mnemonic,
+			Remarks: remark, PrivatePassphrase: []byte(pass), AddressGapLimit: sim.Cur.GapLimit})
+		if err != nil {
+			w1.Stop()
+			return fmt.Errorf("ImportWalletWithMnemonic (born by import): %v", err)
+		}
+		if !w1.WaitTasks(20 * time.Second) {
+			w1.Stop()
+			return fmt.Errorf("import did not finish")
+		}
+		id = sum.WalletID
+		stats["born_by_import_foreign_passphrase"]++
+	} else {
+		var err error
+		id, mnemonic, _, err = w1.WM.CreateWallet(pass, remark, bits)
+		if err != nil {
+			w1.Stop()
+			return fmt.Errorf("CreateWallet: %v", err)
+		}
 	}
 	rf, err := newRef(mnemonic, pass, coin)
 	if err != nil {
@@ -500,6 +549,19 @@ func runOne(seed uint64, n int, out *bufio.Writer) error {
 			}
 			emitI(out, n, fmt.Sprintf("import-mnemonic:%s:%d:%d", vname, exHint, inHint), sum3.WalletID, cnt, l3, sc)
 			w3.Stop()
+			// ... and what the restore WROTE is what it showed: reopen the instance (the address table is rebuilt from the
+			// stored public-key rows and counters), same addresses on both branches, every address still signs with its key
+			w3b, err := simx.Open(node, root+"/i3", pub)
+			if err != nil {
+				return err
+			}
+			cntb, l3b, err := observe(w3b, sum3.WalletID)
+			if err != nil {
+				w3b.Stop()
+				return err
+			}
+			emitI(out, n, "restart:after-import-mnemonic", sum3.WalletID, cntb, l3b, signCheck(w3b, r, pass, l3b, rf))
+			w3b.Stop()
 		}
 		stats["variant_"+vname]++
 
